@@ -113,7 +113,7 @@ C02_VIEWS = ["sma", "cum", "min", "max", "wo", "hln", "roc", "bent", "vst", "vsc
 
 
 def jobs_spec_views(rng, tier, names, quick=14, thorough=150, nmax=8, minn=None, only_some=(), fams=None, acc=("wo", "wroll"),
-                    fmode=True, length=None):
+                    fmode=True, length=None, big_exact=True):
     js = []
     for nm in names:
         for _ in range(scale_n(tier, quick, thorough)):
@@ -125,6 +125,16 @@ def jobs_spec_views(rng, tier, names, quick=14, thorough=150, nmax=8, minn=None,
             fam, xs = stream_for(rng, e, L, fams)
             js.append(SpecEq(e, xs, acc=nm in acc, only_some=nm in only_some))
             js += both_mode_corr(e, xs, ["A"] if nm in acc else [], n=n)[: 2 if fmode else 1]
+        # larger windows (buffers that change representation with size, power-of-two effects): N = 16 ... 128
+        if "n" in gen.CATALOGUE[nm]["params"]:
+            for n in rng.sample([16, 31, 32, 33, 64, 65, 100, 128], scale_n(tier, 3, 8)):
+                e = mk(nm, ECHO, gen.gen_params(rng, nm, nmax, n=n))
+                fam, xs = stream_for(rng, e, n + rng.randint(n // 2 + 3, n + 8), fams)
+                if big_exact:
+                    js.append(SpecEq(e, xs, acc=nm in acc, only_some=nm in only_some))
+                else:   # recursive filters: exact rationals grow with the stream; compare at f64 against the spec at f64
+                    js.append(SpecEq(e, xs, acc=nm in acc, only_some=nm in only_some, mode="f", rel=1e-8))
+                js += both_mode_corr(e, xs, ["A"] if nm in acc else [], n=n)[:1]
         # the definition is over the values DELIVERED by the inner view: the same view chained over an inner view that has
         # a warm-up of its own must equal the stand-alone inner view followed by the view over Echo fed what that delivered
         for _ in range(scale_n(tier, 2, 12)):
@@ -395,7 +405,7 @@ def rec_expr(rng, nm, n):
     if nm == "cc":
         return mk("cc", ECHO, [max(n, 6)])
     if nm in ("tflex", "rflex"):
-        return mk(nm, ECHO, [max(n, 3)])
+        return mk(nm, ECHO, [n])
     if nm == "eft":
         return ("eft", ECHO, mk("ema", ECHO, [rng.randint(1, 4)]), n)
     return mk(nm, ECHO, [n])
@@ -532,11 +542,11 @@ C11_VIEWS = ["ss", "roof", "lagf", "lagrsi", "cc", "tflex", "rflex"]
 
 
 def jobs_C11(rng, tier):
-    js = jobs_spec_views(rng, tier, C11_VIEWS, quick=10, thorough=100, nmax=9, minn=dict(tflex=3, rflex=3), length=None)
+    js = jobs_spec_views(rng, tier, C11_VIEWS, quick=10, thorough=100, nmax=9, length=None, big_exact=False)
     R = scale_n(tier, 1, 6)
     # all window lengths from the minimum to 20 and a few large ones
     for nm in C11_VIEWS:
-        lo = dict(roof=2, cc=6, tflex=3, rflex=3).get(nm, 1)
+        lo = dict(roof=2, cc=6).get(nm, 1)
         for n in list(range(lo, 21)) + [33, 50]:
             for _ in range(R):
                 if nm == "lagf":
@@ -553,7 +563,7 @@ def jobs_C11(rng, tier):
     # the values the inner view DELIVERS (chain = stand-alone inner, then the view over Echo fed those values; f64, bitwise)
     for nm in C11_VIEWS:
         for _ in range(scale_n(tier, 4, 24)):
-            n = rng.randint(dict(roof=2, cc=6, tflex=3, rflex=3).get(nm, 1), 9)
+            n = rng.randint(dict(roof=2, cc=6).get(nm, 1), 9)
             outer = mk("lagf", ECHO, [F(rng.randint(1, 7), 8)]) if nm == "lagf" else (mk("roof", ECHO, [n, rng.randint(1, 5)]) if nm == "roof" else mk(nm, ECHO, [n]))
             inner = rng.choice([mk("sma", ECHO, [rng.randint(2, 6)]), mk("ss", ECHO, [rng.randint(2, 5)]), mk("roc", ECHO, [rng.randint(1, 4)]),
                                 mk("ema", ECHO, [rng.randint(2, 5)]), mk("wo", ECHO, [rng.randint(3, 5)])])
@@ -603,6 +613,11 @@ def jobs_C12(rng, tier):
             # only once the window is full (known finding K6, replayed from known_findings.json): compare from step N on
             sk = dict(skip=list(range(gen.window_of(e) - 1))) if nm == "cti" else {}
             js.append(Relation("same", e, [xs, [a * x + b for x in xs]], dict(map="id", **sk, **tolp(e))))
+            if it % 4 == 0:
+                # an offset far larger than the spread of the data (2^24 ... 2^40 against values below 2^7): a view that looks at
+                # the values through a narrower type, or at x^2 before centring, loses the differences there
+                big = F(2) ** rng.choice([24, 31, 40]) * rng.choice([1, -1])
+                js.append(Relation("same", e, [xs, [x + big for x in xs]], dict(map="id", **sk, **tolp(e))))
         # scale invariance
         for nm in ("rsi", "myrsi", "lagrsi", "roc", "cog", "bent", "tflex", "rflex"):
             e = ex(nm, n)
@@ -637,6 +652,14 @@ def jobs_C12(rng, tier):
 def jobs_C13(rng, tier):
     js = jobs_spec_views(rng, tier, ["wroll", "drawdown", "lnret"], quick=40, thorough=300,
                          fams=["ints", "dyadic8", "ties", "rampup", "rampdown", "spike", "sawtooth", "big_small", "dyadic1024"], length=40)
+    # the `Default`-constructed views (`Drawdown::default()` etc.) are the same views over Echo
+    for nm in sorted(gen.DEFAULTS):
+        for _ in range(scale_n(tier, 8, 60)):
+            e = (nm, ECHO)
+            fam, xs = gen.gen_stream(rng, 30, 3, positive=True, families=["dyadic8", "rampup", "rampdown", "spike", "sawtooth", "decimal", "ties"])
+            js.append(SpecEq(e, xs, acc=nm == "wroll_d"))
+            js += both_mode_corr(e, xs, ["A"] if nm == "wroll_d" else [], n=1)
+            js.append(Twin(e, xs, rng.randrange(10 ** 9), clone_pt=rng.choice([0, 1, 2, 5])))
     # long streams at f64 against the spec at f64 (rounding noise only)
     for nm in ("wroll", "drawdown", "lnret"):
         for _ in range(scale_n(tier, 2, 10)):
@@ -1272,6 +1295,130 @@ def add_clone_hops(js, rng):
     return n
 
 
+class TypeTwin(Job):
+    """the same view at f32 and at f64 on a stream that is exact in both: same readiness pattern, values within 1e-3 of the
+    output's scale.  A view must not behave differently for one scalar type (a threshold tied to T::epsilon(), a lossy
+    conversion, ...); rounding itself is far below this tolerance on the short well-conditioned streams used here."""
+    kind = "typetwin"
+
+    def __init__(self, e, xs):
+        self.e, self.xs = e, xs
+
+    def impl_rel_cases(self):
+        return [Case("f", gen.render(self.e, "f"), xs_ops("f", self.xs)), Case("s", gen.render(self.e, "s"), xs_ops("s", self.xs))]
+
+    def decide(self, impl, rel, model):
+        a, b = outputs("f", rel[0]), outputs("f", rel[1])
+        for t, (u, v) in enumerate(zip(a, b)):
+            if isinstance(u, tuple) or isinstance(v, tuple):
+                if isinstance(u, tuple) != isinstance(v, tuple):
+                    return dict(explanation="step %d: one scalar type panics, the other does not" % (t + 1), expected=str(u), actual=str(v))
+                return None
+            if (u is None) != (v is None):
+                return dict(explanation="step %d: readiness differs between f64 and f32" % (t + 1), expected=str(u), actual=str(v))
+            if u is None:
+                continue
+            if v != v or abs(u - v) > 1e-3 * max(1.0, abs(u)):
+                return dict(explanation="step %d: the f32 instance reports %r where the f64 instance reports %r on a stream that is exact in both types"
+                            % (t + 1, v, u), expected=u, actual=v)
+        return None
+
+    def nontrivial_key(self, impl):
+        return (gen.render(self.e, "q"), tuple(self.xs))
+
+    def to_json(self):
+        return dict(kind=self.kind, e=jexpr(self.e), xs=jvals(self.xs))
+
+    @staticmethod
+    def from_json(d):
+        return TypeTwin(uexpr(d["e"]), uvals(d["xs"]))
+
+    def shrink_candidates(self):
+        return [TypeTwin(self.e, self.xs[:-1])] if len(self.xs) > 2 else []
+
+
+JOB_KINDS["typetwin"] = TypeTwin
+
+SPECIAL_BITS = ["8000000000000000", "0000000000000000", "0000000000000001", "8000000000000003", "0010000000000000", "000fffffffffffff",
+                "3ff0000000000000", "3ff0000000000001", "3fefffffffffffff", "bff0000000000000", "4000000000000000", "3fe0000000000000",
+                "4340000000000000", "4340000000000001", "3ca0000000000000", "bca0000000000000", "7fd0000000000000" if False else "5fe0000000000000",
+                "1ff0000000000000", "4008000000000000", "c008000000000000"]
+
+
+def augment_jobs(js, rng, pid, tier):
+    """Scenario kinds that any property's views must survive, added to every property's job list (wave-4 seeds):
+    both builds; varied call patterns (updates without last(), last() before any update); long runs (> 2^16 values: narrow
+    or saturating counters, periodic compaction); special finite floats (signed zeros, subnormals, neighbours of 1, 2^53);
+    the same view at f32 and f64; a view nested inside a view of its own type."""
+    corr = [j for j in js if isinstance(j, Corr)]
+    for j in corr:
+        r = rng.random()
+        if r < 0.4 and not j.both and j.mode == "f":
+            j.both = True
+        if rng.random() < 0.25 and not any(o[0] in "KW" for o in j.ops):
+            ops = []
+            if rng.random() < 0.5:
+                ops.append("L")           # last() before any update
+            for o in j.ops:
+                if o[0] == "X" and rng.random() < 0.35:
+                    ops.append("U" + o[1:])   # update without reading
+                else:
+                    ops.append(o)
+            j.ops = ops + ["L"]
+    # one representative expression per catalogue view (over Echo) that this property's jobs mention
+    reps = {}
+    for j in js:
+        for e in ([getattr(j, "e", None)] + list(getattr(j, "es", None) or []) + [getattr(j, "outer", None)]):
+            if e and (e[0] in gen.CATALOGUE or e[0] == "tanh") and len(e) > 1 and e[1] == ECHO and e[0] not in reps:
+                reps[e[0]] = e
+    names = sorted(reps)
+    rng.shuffle(names)
+    extra = []
+    # reads after 1, 2, 3, 255, 256, 257, 512, ... updates without a read in between (a wrapping or saturating step stamp)
+    gaps = [1, 1, 2, 3, 255, 256, 257, 256, 512, 768, 1024, 4096, 65536, 7, 256]
+    for nm in names[: (12 if tier == "quick" else 40)]:
+        e = reps[nm]
+        n = gen.window_of(e)
+        pos = gen.needs_positive(e)
+        # long run
+        L = 76000 if tier == "quick" else 150000
+        period = rng.choice([7, 13, 50])
+        base = [F(rng.randint(1, 64), 8) if pos else F(rng.randint(-64, 64), 8) for _ in range(period * 40)]
+        xs = [base[t % len(base)] + F(t % 5, 16) for t in range(L)]
+        reads, t0 = set(), 3 * n + 5
+        for g in gaps:
+            t0 += g
+            reads.add(t0)
+        ops = [("X " if (t in reads or t % 997 == 0 or t > L - 40) else "U ") + enc("f", x) for t, x in enumerate(xs)]
+        extra.append(Corr(e, "f", ops, "f64", scale=16.0, n=n))
+        # special finite floats (f64 only; the exact scalar has neither signed zeros nor subnormals): signed zeros, subnormals,
+        # neighbours of 1, 2^53 +- 1; small integers in units of 2^-1074 (everything subnormal) and of 2^1019 (sums of a few
+        # values overflow unless the code divides first).  Compared value by value against its own magnitude.
+        import struct
+        def bits(x):
+            return "%016x" % struct.unpack(">Q", struct.pack(">d", x))[0]
+        K = 3 * n + 12
+        variants = [[rng.choice(SPECIAL_BITS if not pos else [b for b in SPECIAL_BITS if b[0] in "01234567" and b != "0000000000000000"]) for _ in range(K)],
+                    [bits((rng.randint(1, 9) if pos else rng.randint(-9, 9)) * 5e-324 * rng.choice([1, 1, 1000, 2 ** 40])) for _ in range(K)],
+                    [bits((rng.randint(1, 3) if pos else rng.choice([-3, -2, -1, 1, 2, 3])) * 2.0 ** 1019) for _ in range(K)]]
+        for sp in variants:
+            extra.append(Corr(e, "f", ["X " + b for b in sp], "rel", scale=1.0, both_builds=True, n=n))
+        # the same view at both float types
+        # (not the views whose running sums are ill-conditioned at f32 even on short streams: Welford family, CTI, Alma with a
+        # small offset — K4/K5-class findings, measured under C16)
+        if nm not in ("vst", "vsct", "wo", "roc", "lagrsi", "cti", "bent", "eft", "tanh", "alma", "almac"):
+            xs2 = gen.stream(rng, rng.choice(["rampup", "sawtooth", "dyadic8"]), 3 * n + 12, n, positive=pos)
+            extra.append(TypeTwin(e, xs2))
+        # nested in a view of its own type
+        e2 = (e[0], e) + tuple(e[2:])
+        if nm == "tanh":
+            continue
+        fam, xs3 = gen.gen_stream(rng, 4 * n + 14, n, positive=True if pos else False, families=["dyadic8", "rampup", "spike", "sawtooth", "ties"])
+        extra += both_mode_corr(e2, xs3, n=n)
+    js.extend(extra)
+    return len(extra)
+
+
 def check_property(pid, tier, seed, do_lean=True, write_evidence=True):
     t0 = time.time()
     if pid not in GENERATORS:
@@ -1291,15 +1438,42 @@ def check_property(pid, tier, seed, do_lean=True, write_evidence=True):
     except core.BuildError as ex:
         build_error = str(ex)
     js = []
+    cov_dir = None
+    if tier == "thorough" and write_evidence and not os.environ.get("VERIF_DUMP_CASES"):
+        # thorough tier: keep what is fed to the implementation, to measure afterwards which lines of /repo/src it executed
+        import tempfile
+        os.makedirs(core.WORK, exist_ok=True)
+        cov_dir = tempfile.mkdtemp(prefix="sfcases_", dir=core.WORK)
+        os.environ["VERIF_DUMP_CASES"] = cov_dir
     if build_error is None:
         js = GENERATORS[pid](rng, tier)
         add_clone_hops(js, random.Random(seed * 7919 + int(pid[1:])))
+        augment_jobs(js, random.Random(seed * 104729 + int(pid[1:])), pid, tier)
         CH = 4000
         try:
             for i in range(0, len(js), CH):
                 results += run_jobs(js[i:i + CH])
         except core.BuildError as ex:
             build_error = str(ex)
+    impl_cov = None
+    if cov_dir is not None:
+        os.environ.pop("VERIF_DUMP_CASES", None)
+        try:
+            import importlib.util, shutil
+            sp = importlib.util.spec_from_file_location("sfcoverage", os.path.join(core.VERIF, "tools", "coverage.py"))
+            cm = importlib.util.module_from_spec(sp); sp.loader.exec_module(cm)
+            if cm.available() and build_error is None:
+                rep = cm.measure(cov_dir)
+                impl_cov = dict(case_files=rep["case_files"], src_files=rep["files"], lines=rep["lines"], lines_executed=rep["lines_covered"],
+                                line_coverage=rep["line_coverage"],
+                                files_fully_executed=sorted(f for f, p in rep["per_file"].items() if p["lines"] and not p["uncovered"]),
+                                note="lines of /repo/src (non-test code) executed by the inputs of THIS check, measured with an "
+                                     "instrumented build of the harness (nightly llvm-cov); a measurement, not a gate")
+        except Exception as ex:   # the measurement must never break a check
+            impl_cov = dict(error=str(ex)[:300])
+        finally:
+            import shutil
+            shutil.rmtree(cov_dir, ignore_errors=True)
     known = [k for k in load_known() if k.get("property") == pid]
     # replay stored witnesses of known findings
     known_lines = []
@@ -1407,6 +1581,7 @@ def check_property(pid, tier, seed, do_lean=True, write_evidence=True):
         f64_value_differences_that_vanish_in_exact_arithmetic=sum(1 for j, f in results if getattr(j, "rounding_only", False)),
         job_kinds=dict(kinds), views=dict(views), samples=samples,
         known_findings_replayed=len(known_lines), failures_matching_known_findings=len(known_hits),
+        implementation_line_coverage=impl_cov,
         explanation="proof obligations: theorems of SF/Props/%s.lean audited with #print axioms; tie: Rust harness on /repo's working tree vs Lean model (f64 and exact Q) and vs batch specs; relations evaluated on the implementation in exact arithmetic" % pid,
     )
     if write_evidence:
